@@ -203,7 +203,7 @@ public:
                 p.ops.append(mkop(QStringLiteral("auth"), { c, r.weighted({ 60, 25, 8, 7 }), (qint64)r.weighted({ 30, 30, 30, 10 }), r.weighted({ 45, 40, 15 }), (qint64)r.chance(0.3) }, {}, salt));
                 break;
             case 2:
-                p.ops.append(mkop(QStringLiteral("response"), { c, r.weighted({ 45, 30, 13, 12 }), (qint64)r.weighted({ 30, 30, 30, 10 }) }, {}, salt));
+                p.ops.append(mkop(QStringLiteral("response"), { c, r.weighted({ 40, 27, 12, 11, 10 }), (qint64)r.weighted({ 30, 30, 30, 10 }) }, {}, salt));
                 break;
             case 3:
                 p.ops.append(mkop(QStringLiteral("abort"), { c }, {}, salt));
@@ -602,7 +602,12 @@ public:
                         // who recorded a login, but does not know the password, can send
                         const int u = (int)(op.arg(2) % 4);
                         QByteArray data;
-                        if (op.arg(1) != 2) {
+                        if (op.arg(1) == 4) {
+                            // a PLAIN-shaped payload (authzid NUL authcid NUL password) inside a <response/>: legal bytes, meaningless
+                            // at this point of any exchange - it must not change who the exchange is about
+                            data = QByteArray(1, '\0') + kUsers[u] + QByteArray(1, '\0') + (r.chance(0.5) ? QByteArray(kPasswords[u]) : QByteArray("whatever"));
+                            res.faults[QStringLiteral("plain_shaped_payload_in_response")]++;
+                        } else if (op.arg(1) != 2) {
                             const bool replay = op.arg(1) == 3;
                             const QByteArray user = kUsers[u], realm = "example.org", nonce = replay ? QByteArray("bm9uY2Ugb2YgYW5vdGhlciBsb2dpbg==") : c.nonce.toLatin1(), cnonce = "cn" + QByteArray::number((int)r.uniform(100000)), nc = "00000001", uri = "xmpp/example.org";
                             if (replay) {
